@@ -900,7 +900,7 @@ def digest(spec):
 
 def child_digests(specs, order, tag):
     """run specs[order[0]], specs[order[1]], ... in a FRESH interpreter; returns the digests in that order"""
-    rundir = os.path.join(coqrun.BUILD, "run", "C01h")
+    rundir = os.path.join(coqrun.RUN_ROOT, "C01h")
     os.makedirs(rundir, exist_ok=True)
     path = os.path.join(rundir, "seq_%s_%d.json" % (tag, os.getpid()))
     with open(path, "w") as f:
